@@ -109,7 +109,7 @@ PROPS = {
         "oracle_engine": {"tamper": "stream"},
         "trusted": [SYMBOLIC_CRYPTO],
         "technique": "Lean 4 theorem (invariant + induction over adversarial wire, symbolic AEAD) + correspondence/tamper fault enumeration on real streams",
-        "level_text": "recv_prefix / recv_prefix_midstream: for every send history in both directions and every Dolev-Yao rewriting of the wire (own bytes, the sender's seals replayed/re-headed, the RECEIVER's own seals reflected), ReceiveCompleteMessage delivers a prefix of the sent messages, under two stated session hypotheses (the two fresh IVs differ in their last 12 bytes; the receiver's two transcript digests differ, i.e. something was exchanged in clear before the key was installed) - reflection_needs_asymmetry exhibits the excluded point (model theorem, kernel-checked); no_bypass: no frame is accepted without AES-GCM open. Model tied to the code by the tamper engine (single-fault catalogue + multi-faults on real keyed streams, compared with the model).",
+        "level_text": "recv_prefix / recv_prefix_midstream: for every send history in both directions and every Dolev-Yao rewriting of the wire (own bytes, the sender's seals replayed/re-headed, the RECEIVER's own seals reflected), ReceiveCompleteMessage delivers a prefix of the sent messages, under one stated session hypothesis (the two fresh IVs differ in their last 12 bytes: two independent random draws); a reflected first frame announces the receiver's own IV and is refused (reflection_rejected is the concrete case that failed before the fix) (model theorem, kernel-checked); no_bypass: no frame is accepted without AES-GCM open. Model tied to the code by the tamper engine (single-fault catalogue + multi-faults on real keyed streams, compared with the model).",
         "level_note": "Symbolic AEAD (free constructors); receive errors terminal; model hand-written and validated by correspondence; constants regenerated from source.",
         "assumptions": ["a receive error is terminal (the application stops reading)", "crypto/aes, crypto/cipher GCM are correct"],
     },
